@@ -9,7 +9,7 @@
 (* construction of ModeItems; evaluation of a concatenated path is the     *)
 (* composition of its parts.                                               *)
 (***************************************************************************)
-EXTENDS PathAst, Json, TLC
+EXTENDS PathAst, PathText, Json, TLC
 
 CONSTANTS Family, MaxSteps
 
@@ -49,6 +49,9 @@ EmitPre ==
      \* an earlier selection (one offset) followed by an earlier predicate result (no offset)
      \/ Out(Sel(<<Root>> \o ss, doc, [pre |-> <<32, 0, 0, 0, 0, 0, 0, 0, 32, 0, 0, 0, 64, 0, 0, 0>>, preoffs |-> <<8>>]))
      \/ Out(Sel(<<Pred(EExists(<<Root>> \o ss))>>, doc, [pre |-> <<9, 9, 9>>, preoffs |-> <<3>>]))
+     \* a predicate result into a buffer whose earlier bytes no offset covers
+     \/ Out(Sel(<<Pred(EExists(<<Root>> \o ss))>>, doc, [pre |-> <<9, 9, 9>>, preoffs |-> <<>>]))
+     \/ Out(Sel(<<Pred(EExists(<<Root>> \o ss))>>, doc, [pre |-> <<32, 0, 0, 0, 0, 0, 0, 0, 32, 0, 0, 0, 64, 0, 0, 0>>, preoffs |-> <<8>>]))
 
 \* the same selections with the document given as JSON text (the convenience functions accept it)
 TextSel(s) == [rp |-> <<IF s.a.path = <<Root>> THEN 3 ELSE 1>>, fl |-> FL] @@ s
@@ -58,6 +61,27 @@ EmitText0 ==
   \/ \E e \in {EExists(<<Root, BrW>>), EBin("gt", EPaths(<<Root, BrW>>), EVal(PNum(u1)))} : Out(TextSel(Sel(<<Pred(e)>>, doc, NoArg)))
 EmitText == ~HasNonFinite(doc) /\ EmitText0
 
+\* the path handed over as text written by the specification's renderer: the parser is part of what is
+\* evaluated ("for every path the parser accepts")
+PlainSt == [ws |-> 0, kw |-> 0, quote |-> FALSE]
+\* (a signed non-negative integer literal has no spelling: the text "1" denotes the unsigned 1)
+RECURSIVE WrExpr(_), WrSteps(_)
+WrExpr(e) == CASE e.e = "val" -> ~(e.v.v = "num" /\ e.v.r = "i" /\ e.v.b[1] < 128)
+               [] e.e = "bin" -> WrExpr(e.l) /\ WrExpr(e.r)
+               [] e.e \in {"paths", "exists"} -> WrSteps(e.ps)
+               [] OTHER -> TRUE
+\* (nor has last - 2147483648: the magnitude is not an i32)
+WrIx(ix) == ~(ix.t = "l" /\ ix.v = IntMin)
+WrAi(ai) == IF ai.x = "i" THEN WrIx(ai.i) ELSE WrIx(ai.s) /\ WrIx(ai.e)
+WrSteps(ps) == \A i \in 1..Len(ps) : /\ (ps[i].p \in {"filter", "pred"} => WrExpr(ps[i].e))
+                                       /\ (ps[i].p = "idx" => \A j \in 1..Len(ps[i].ix) : WrAi(ps[i].ix[j]))
+OutT(ps) == WrSteps(ps) /\ Out(Sel(ps, doc, [ptext |-> PathTextOf(ps, PlainSt, FL)]))
+EmitViaText ==
+  \/ \E ss \in UNION {[1..k -> NavSteps] : k \in 0..1} : OutT(<<Root>> \o ss)
+  \/ \E f \in FilterSteps : OutT(<<Root, f>>) \/ OutT(<<Root, BrW, f>>)
+  \/ \E s \in {Idx(l) : l \in Indices}, t \in {BrW, Dot(ka)} : OutT(<<Root, t, s>>)
+  \/ \E e \in {EExists(<<Root, Dot(ka)>>), EBin("gt", EPaths(<<Root, BrW>>), EVal(PNum(u1))), EBin("and", EExists(<<Root, Dot(ka)>>), EExists(<<Root, Dot(kb)>>))} : OutT(<<Pred(e)>>)
+
 Emit ==
   /\ stage = "doc"
   /\ CASE Family = "nav" -> EmitNav
@@ -66,6 +90,7 @@ Emit ==
        [] Family = "err" -> EmitErr
        [] Family = "pre" -> EmitPre
        [] Family = "text" -> EmitText
+       [] Family = "viatext" -> EmitViaText
        [] OTHER -> FALSE
 Next == Pick \/ Emit
 Spec == Init /\ [][Next]_vars
